@@ -55,7 +55,7 @@ def truncate(case, obs, model):
     if len(obs["log"]) <= n: return obs
     k = 0; cut = len(obs["xlog"])
     for i, (ev, ctx) in enumerate(obs["xlog"]):
-        if ev[0] not in ("api", "api<", "cb<", "end"):
+        if ev[0] not in ("api", "api<", "cb<", "end", "hidden-read"):
             k += 1
             if k > n: cut = i; break
     out_at = next((c.get("out") for e, c in reversed(obs["xlog"][:cut]) if c.get("out") is not None), 0)
@@ -192,6 +192,11 @@ def lost_signals(case, obs, ideal=False):
     else:
         for i, ev, ctx in x.events():
             if ev[0] == "api" and ev[1] == "enq" and ev[4] is None and x.cls_handlers.get(ev[2]) and "lvl" in ctx: targets[ev[5]] = ctx["lvl"]
+            if ev[0] == "api<" and ev[1] == "enq" and "lvl" in ctx and ctx.get("levels") and ctx["lvl"] not in ctx["levels"]:
+                # the loop's active queue is not one of its open levels (a level was popped and the active queue not switched): what is enqueued now is gone
+                e0 = next(e for e, c in reversed(x.x[:i]) if e[0] == "api" and e[1] == "enq")
+                if e0[4] is None and x.cls_handlers.get(e0[2]) and e0[5] not in dispatched:
+                    return "signal %d was enqueued while the loop's active queue was a level that had already been closed: it was never dispatched (lost)" % e0[5]
         final = next((c["lvl"] for e, c in reversed(x.x) if "lvl" in c), None)
         end_levels = next((c["levels"] for e, c in reversed(x.x) if "levels" in c), [])
         if final is None or (end_levels and end_levels[-1] != final): return None
